@@ -498,7 +498,53 @@ def e8(prog, ctx):
     ctx.floor("E8", "numeric preset fields + documented deltas", n, 8)
 
 
+def e9(prog, ctx):
+    """The polyA/polyT evidence of a read is what the finder found in the read's own alignment - for every alignment: the assigner treats
+    'no polyA found' and 'polyA found' differently (fake terminal exons are trimmed, ends are verified), so a read whose tail search was
+    skipped is assigned as another read.  AlignmentInfo.polya_info is stored only from the finder's result on the alignment, and every
+    path through add_polya_info passes that store."""
+    AI = "src/alignment_info.py"
+    cls = prog.cls(AI, "AlignmentInfo")
+    meths = prog.methods_of(cls, inherited=False)
+    n = 0
+    finder_stores = []
+    for name, f in sorted(meths.items()):
+        params = {a.arg for a in f.args.args}
+        for st in walk_no_nested(f):
+            if not (isinstance(st, ast.Assign) and any(src(t) == "self.polya_info" for t in st.targets)):
+                continue
+            n += 1
+            v = st.value
+            if name == "__init__" and isinstance(v, ast.Constant) and v.value is None:
+                ctx.ok("E9", "%s:%d" % (AI, st.lineno), "polya_info starts as None")
+            elif isinstance(v, ast.Call) and isinstance(v.func, ast.Attribute) and isinstance(v.func.value, ast.Name) and v.func.value.id in params \
+                    and any(src(a) == "self.alignment" for a in v.args):
+                finder_stores.append(st)
+                ctx.ok("E9", "%s:%d" % (AI, st.lineno), "polya_info = %s(self.alignment)" % src(v.func))
+            else:
+                ctx.fail("E9", st, "AlignmentInfo." + name, src(st)[:80], "the polyA/polyT evidence of a read is set to %s without searching the "
+                         "read's alignment: aligned tails and fake terminal exons of such reads are no longer recognised, and the read is "
+                         "assigned as if it had no tail" % src(v)[:50])
+    f = meths.get("add_polya_info")
+    if f is None or not finder_stores:
+        ctx.undecided("E9", cls, "AlignmentInfo", "add_polya_info / the store of the finder's result not found")
+    else:
+        for pth in flow.paths(f):
+            if pth.exit not in ("return", "fall"):
+                continue
+            n += 1
+            if any(s_ is st for s_ in pth.stmts() for st in finder_stores):
+                ctx.ok("E9", "%s:%d" % (AI, f.lineno), "path [%s] runs the tail search" % pth.describe()[:60])
+            else:
+                ctx.fail("E9", pth.exit_node or f, "AlignmentInfo.add_polya_info", "path without tail search: %s" % pth.describe()[:80],
+                         "add_polya_info returns on the path [%s] without running the polyA/polyT search on the alignment" % pth.describe()[:120])
+    ctx.floor("E9", "stores of polya_info / paths of add_polya_info", n, 3)
+
+
 def run(prog, ctx):
+    ctx.rule("E9", "AlignmentInfo.polya_info is assigned only None (constructor) or the result of a finder call on self.alignment, and every "
+                   "normal path of add_polya_info passes through that assignment")
+    e9(prog, ctx)
     ctx.rule("E8", "preset table of set_matching_options: every numeric tolerance is non-decreasing along the documented chain "
                    "exact < precise < default < loose, every preset gives every field once, and delta equals the value docs/cmd.md documents")
     e8(prog, ctx)
